@@ -8,13 +8,15 @@ PY = "/venv/bin/python"
 
 CHECKS = {
     "C01": ("explicit-state BFS to the fix-point over the product (original block x position in the restructured hierarchy x "
-            "control-variable valuation), both walkers, every stage prefix, over exhaustively enumerated closed CFGs",
+            "control-variable valuation), both walkers, every stage prefix, over exhaustively enumerated closed CFGs (all classes up to "
+            "n blocks, every naming / insertion order of the small classes, deviation-bounded, front-end and multi-exit-loop families)",
             "Every decision sequence of unbounded length is decided per instance because the reachable product states are explored "
             "to the fix-point; instances are all closed CFGs up to the block bound plus the deviation-bounded and front-end families.",
             "walker semantics are the checker's reading of by-name / region-by-region execution, bound to generated code and the "
             "repository's simulator by the conformance legs; bounded scope (DESIGN 10)"),
-    "C02": ("exhaustive enumeration of closed CFGs (all up to n blocks, deviation-bounded neighbours of front-end CFGs); every stage "
-            "is a real transition; oracle = no exception + deterministic progress budget",
+    "C02": ("exhaustive enumeration of closed CFGs (all up to n blocks under every naming of the small classes, deviation-bounded neighbours "
+            "of front-end CFGs, multi-entry multi-exit loops x every continuation DAG); every stage is a real transition; oracle = no "
+            "exception + deterministic progress budget",
             "Acceptance is a universally quantified claim over inputs; small-scope exhaustive enumeration with the real stages as "
             "transitions meets every shape up to the bound instead of the ~35 graphs of the suite.",
             "bounded scope; random graphs of the quantifier replaced by the exhaustive deviation-bounded family"),
@@ -25,7 +27,8 @@ CHECKS = {
             "closure of both walkers compared",
             "Invariant over all reachable hierarchies of the bounded input space, every region at every depth, every edge.",
             "parent checked by designation; bounded scope"),
-    "C05": ("exhaustive enumeration of closed CFGs x 3 payload types x stage prefixes; snapshot-vs-result comparison of every input block",
+    "C05": ("exhaustive enumeration of closed CFGs x 3 payload types x stage prefixes; snapshot-vs-result comparison of every input block, "
+            "and explicit-state exploration (by-name product) that every rerouted successor slot leads to the original successor it replaces",
             "Conservation is checked on every input block of every enumerated instance at every stage.", "bounded scope"),
     "C06": ("explicit-state BFS over the product with control-variable valuation and latch-freshness monitor, both walkers, all stage "
             "prefixes; plus static table/successor agreement",
@@ -33,29 +36,35 @@ CHECKS = {
             "freshness enforced for exiting latches; bounded scope"),
     "C07": ("stateless depth-first exploration of ALL oracle answer sequences (tests true/false/raise, iterables of length 0-2, raising calls) "
             "up to a horizon, original function vs regenerated function, over exhaustively enumerated control skeletons S(c), expression "
-            "shapes X(d) x carriers and targeted programs",
+            "shapes X(d) x carriers and targeted programs; exhaustive argument tuples x calling conventions for the parameter-driven family "
+            "A(c) with four signature forms; histories: regeneration twice from one graph, re-conversion through the string entry points",
             "Arguments are replaced by an environment oracle so that every branch-decision path up to the horizon is executed on both "
             "functions; the program space is enumerated, not sampled.",
             "control depends on data only via oracle calls; truthiness is not an external call; horizon bounds loop unrolling"),
     "C08": ("stateless exploration of all oracle answer sequences: the front end's CFG executed by a block interpreter vs the function, "
-            "pruned and unpruned, plus a static census by AST node identity",
+            "pruned and unpruned, plus a static census by AST node identity; input forms (string twice, AST list, function object at three "
+            "indentation levels) must give the identical graph",
             "Order of external calls (incl. operator calls on oracle values) is compared on every path up to the horizon, which exposes "
             "eager or re-ordered operand evaluation that return values hide.",
             "block interpreter is the checker's reading of the statement; horizon bounds loop unrolling"),
     "C09": ("exhaustive enumeration of generated programs (skeletons, opcode-targeted snippets) and a complete sweep of a fixed stdlib corpus; "
-            "library graph compared with a reference CFG from dis metadata, under CPython 3.12 and 3.11",
+            "library graph compared with a reference CFG from dis metadata, under CPython 3.12 and 3.11; histories (rebuild after in-place "
+            "restructuring) and input forms (code object, function, bound method, function carrying __wrapped__)",
             "The program space is enumerated and the corpus swept completely; every block and successor edge is compared with the interpreter's "
             "own opcode metadata.",
             "reference classification of opcodes is completeness-guarded; only interpreters present in the image (3.12, 3.11)"),
-    "C11": ("exhaustive enumeration of (unsupported statement class x snippet variant x structural position x entry point)",
+    "C11": ("exhaustive enumeration of (unsupported statement class x snippet variant x structural position x entry point), and of every "
+            "insertion point of every control skeleton - also behind an inserted return / break / continue (dead code)",
             "The space statement-class x position is finite and small; it is enumerated completely from the running interpreter's ast module.",
-            "snippet table completeness-guarded; dead-code positions (after return) not enumerated"),
+            "snippet table completeness-guarded; two-insertion (dead code) enumeration limited to S(1) skeletons in the quick tier"),
     "C10": ("exhaustive enumeration of accepted programs and of AST-block graphs; static census of the regenerated tree (node identity, "
-            "multiset of control-variable assignments, test/if correspondence, hygiene, unparse+compile)",
+            "multiset of control-variable assignments, test/if correspondence, hygiene, unparse+compile); exhaustive histories of 2-3 "
+            "transform() calls on one transformer instance and of two regenerations from one graph",
             "A static census covers code on paths no input exercises; inputs are enumerated, not sampled.",
             "census is static: it does not establish that the emitted code is placed on the right path (C07 does)"),
     "C12": ("stateless depth-first exploration over set-iteration orders: every set of the library is replaced (import-time AST rewriting) by a "
-            "set whose iteration order / pop choice the explorer picks, deviation-bounded; plus real PYTHONHASHSEED sub-process runs bound to it",
+            "set whose iteration order / pop choice the explorer picks, deviation-bounded, on graphs under default and name-interleaving "
+            "labellings; plus real PYTHONHASHSEED sub-process runs bound to it",
             "The hash-seed nondeterminism is owned by the explorer instead of hoped for: every order of every iterated set (within the deviation "
             "bound) is executed and the exact canonical dump compared.",
             "hash randomisation acts only through set iteration order; deviation bound d <= 2"),
@@ -77,7 +86,8 @@ CHECKS = {
             "Histories (stage prefixes interleaved with round-trip chains) are enumerated completely within the deviation bound.",
             "at most 2 round trips per history; AST payload outside the domain"),
     "C18": ("explicit-state BFS over name-request sequences; exhaustive histories (stages interleaved with reloads) with the name generator "
-            "and add_block wrapped; exhaustive assignments of generator-namespace names to input blocks",
+            "and add_block wrapped; exhaustive assignments of generator-namespace names to input blocks; exhaustive ordered tuples of "
+            "existing generator-style names (indices around decimal carries) x construction / dict / YAML reload x requests",
             "Freshness is a history property: all request sequences up to the depth bound and all reload placements are explored, with the "
             "invariant evaluated at the moment a name is handed out.",
             "wrapping happens inside the checker process; bounded depth / reloads"),
